@@ -2,7 +2,8 @@
 
 For every ordered pair (A, B) of a bounded universe of type shapes and every site where PyTeal
 decides whether a value of type A may be used where B is expected (type_spec_is_assignable_to
-itself, an ABI-typed subroutine parameter, B.set(value of A)), acceptance yields one obligation:
+itself, an ABI-typed subroutine parameter, B.set(value of A), storing / setting the result of an
+ABIReturnSubroutine whose output is an A into a B, storing an element of an A[] into a B), acceptance yields one obligation:
 z3 must show that no value v of A (all leaf values, the stated length vectors) has
 enc_A(v) != enc_B(v read at B by position).  Models are replayed with algosdk.abi (encode at A,
 decode at B, compare)."""
@@ -79,7 +80,40 @@ def accepted_at(site, a, b):
             return True
         except (pt.TealInputError, pt.TealTypeError, TypeError, AttributeError, ValueError):
             return False
+    if site in ("returned", "returned-set"):
+        # the value comes back from an ABIReturnSubroutine whose output has type A and is stored into / set on a B
+        if a[0] == "ref" or b[0] == "ref" or (site == "returned-set" and b[0] in ("tuple", "ntuple")):
+            return None
+        def g(*, output):
+            return pt.Seq()
+        try:
+            g.__annotations__ = {"output": sa.annotation_type(), "return": pt.Expr}
+        except TypeError:
+            return None     # PyTeal cannot spell the type as an annotation
+        rv = pt.ABIReturnSubroutine(g)()
+        inst_b = sb.new_instance()
+        try:
+            if site == "returned":
+                rv.store_into(inst_b)
+            else:
+                inst_b.set(rv)
+            return True
+        except (pt.TealInputError, pt.TealTypeError, TypeError, AttributeError, ValueError):
+            return False
+    if site == "element":
+        # the value is element 0 of an A[1] and is stored into a B
+        if a[0] == "ref" or b[0] == "ref":
+            return None
+        arr = T.to_spec(("sarray", a, 1)).new_instance()
+        try:
+            arr[0].store_into(sb.new_instance())
+            return True
+        except (pt.TealInputError, pt.TealTypeError, TypeError, AttributeError, ValueError):
+            return False
     raise ValueError(site)
+
+
+SITES = ("relation", "subroutine", "set", "returned", "returned-set", "element")
 
 
 def pair_job(job):
@@ -88,7 +122,7 @@ def pair_job(job):
     out = {"id": job["id"], "accepted": {}, "obligations": 0, "discharged": 0, "inconclusive": 0, "violations": [], "solver_time": 0.0,
            "replayed": 0, "no_encoding": 0}
     sites = []
-    for site in ("relation", "subroutine", "set"):
+    for site in SITES:
         try:
             r = accepted_at(site, a, b)
         except Exception as e:  # noqa
@@ -227,7 +261,8 @@ def main():
            "obligations": agg["obligations"], "discharged": agg["discharged"], "inconclusive": agg["inconclusive"],
            "accepted_pairs_per_site": dict(acc), "accepted_pairs_without_encoding (transaction types)": agg["no_encoding"],
            "site_errors": agg["site_errors"], "solver_time_s": round(st, 2), "universe": [T.T_str(x) for x in uni][:120], "exhaustive": True,
-           "functions_encoded": "pyteal/ast/abi/util.py:type_spec_is_assignable_to and the call sites SubroutineDefinition.invoke / BaseType.set (run concretely per pair); "
+           "functions_encoded": "pyteal/ast/abi/util.py:type_spec_is_assignable_to and the call sites SubroutineDefinition.invoke / BaseType.set / ReturnedValue.store_into / "
+                                "set(ReturnedValue) / array element store_into (run concretely per pair); "
                                 "encodings by verif/arc4/model.py, equality decided by z3 for all leaf values"}
     write_evidence(PROP, "model_checking", cov, ["the converse (same encoding => assignable) is not demanded", "values are read at B by position",
                                                  "dynamic lengths take the listed vectors only"], rep.wall(), len(rep.violations))
